@@ -16,6 +16,10 @@ Oracles    : implementation only, judged by an independent reader (json / fastav
                         library calls of the correspondence run under SIGALRM deadlines: a looping library is a VIOLATION
                spelling type SPELLINGS ({"type": t}, +doc, nested, upper case, [t], {}) in the table schema or in the
                         argument x the values plain pyarrow silently alters, fresh and reused handles
+               objects  schema argument OBJECTS whose derived attributes (schema_string) disagree with their fields --
+                        dataclasses.replace, in-place edit / re-assignment of .fields, explicit schema_string=, an edited
+                        copy of the handle's own schema object -- x the divergent variants x fresh / reused handles; the
+                        same build modes are mixed into every random history and transaction and into `accept`
                prebuilt pre-built parquet files with divergent footers / other formats through append_files
                tx       EXPLICIT transactions that outlive a rejected call (harness/lib/c11_tx.py): begin / several
                         append_data and MULTI-FILE append_files calls, the refused file at every position, the caller
@@ -48,6 +52,7 @@ import datetime as dt
 import glob
 import itertools
 import json
+import math
 import os
 import shutil
 from typing import Any, Dict, List, Optional, Tuple
@@ -60,7 +65,7 @@ from harness.lib.values import val_to_coq
 LEVEL = "proof"
 THEOREMS = ["C11_accept_scans", "C11_history_scans", "C11_accept_bounds", "C11_history_filter", "C11_history_bounds_exact",
             "C11_history_bounds_true", "C11_reject_no_trace", "C11_exact_partial", "C11_fits_representable",
-            "C11_tx_rejected_call_no_trace", "C11_tx_publishes_accepted_only", "C11_tx_unpublished_no_trace", "C11_tx_history_scans"]
+            "C11_arg_object_irrelevant", "C11_tx_rejected_call_no_trace", "C11_tx_publishes_accepted_only", "C11_tx_unpublished_no_trace", "C11_tx_history_scans"]
 REQ = ["DS.Model.Value", "DS.Gen.GenPrune", "DS.Model.Prune", "DS.Gen.GenSchema", "DS.Model.Schema", "DS.Model.SchemaTx", "DS.Model.SchemaEval"]
 
 MANIFEST_ENTRY = {
@@ -73,7 +78,9 @@ MANIFEST_ENTRY = {
                   "minimum / maximum of its column, under the table's field id, and encloses every ordinary value "
                   "(C11_history_bounds_exact, C11_history_bounds_true); in explicit transactions a call that raises adds "
                   "nothing to the queue, a successful commit publishes exactly the files of the accepted calls, any "
-                  "other end publishes nothing, and scans keep working (C11_tx_*); a rejected append leaves "
+                  "other end publishes nothing, and scans keep working (C11_tx_*); an append depends on the schema argument "
+                  "object only through its schema_id and fields, never through derived attributes such as a stale "
+                  "schema_string (C11_arg_object_irrelevant); a rejected append leaves "
                   "schema, snapshot list, reachable files and stored data files unchanged (C11_reject_no_trace); accepted "
                   "rows are stored as canon(type, value) with every value representable (C11_exact_partial, under "
                   "conv_sound). Model pieces tied to the code by differential execution; implementation-only end-to-end "
@@ -220,6 +227,47 @@ def spell_code(tdef: Any) -> int:
     raise ValueError(f"unknown spelling {tdef!r}")
 
 
+# ---------------------------------------------------------------------------------- schema argument OBJECTS
+# A Schema is an ordinary dataclass: besides its fields it carries attributes DERIVED from them once, at
+# construction (schema_string), and nothing re-derives or re-validates them when the object is copied or edited.
+# Callers do derive their schema= argument from an existing object; every way of doing so is a build mode.
+BUILD_MODES = ["fresh",               # Schema(schema_id, fields): derived attributes describe the fields
+               "replace",             # dataclasses.replace(table's schema object, fields=...)
+               "mutate_fields",       # copy of the table's schema object, .fields edited IN PLACE (no __post_init__)
+               "assign_fields",       # copy of the table's schema object, .fields re-assigned
+               "explicit_string",     # Schema(schema_id, fields, schema_string=<the table's string>)
+               "copy_table_object"]   # deepcopy of the object the handle itself returns for the current schema, edited
+KEEPS_SID = ("replace", "assign_fields")          # these keep the table's schema_id (1)
+
+
+def build_schema(mode: str, sid: int, arg_fields: List[Dict[str, Any]], table_fields: List[Dict[str, Any]], handle: Any = None):
+    """The schema= argument object for `arg_fields`, obtained the way `mode` says.  Whatever the way, the object's
+    FIELDS are arg_fields: the property speaks about the schema argument, i.e. what the object declares."""
+    import dataclasses
+    from datashard.data_structures import Schema
+    fields = copy.deepcopy(arg_fields)
+    if mode == "fresh":
+        return Schema(schema_id=sid, fields=fields)
+    if mode == "explicit_string":
+        return Schema(schema_id=sid, fields=fields, schema_string=json.dumps(table_fields))
+    base = Schema(schema_id=1, fields=copy.deepcopy(table_fields))
+    if mode == "copy_table_object" and handle is not None:
+        try:
+            own = handle._get_current_schema()
+            if own is not None and own.fields:
+                base = copy.deepcopy(own)
+        except Exception:                            # noqa: BLE001 - fall back to an equal object built here
+            pass
+    if mode == "replace":
+        return dataclasses.replace(base, fields=fields)
+    if mode == "assign_fields":
+        base.fields = fields
+        return base
+    base.fields[:] = fields                          # mutate_fields / copy_table_object
+    base.schema_id = sid
+    return base
+
+
 # ---------------------------------------------------------------------------------- cases
 def mk_fields(rng, ncols: int, p_spelled: float = 0.0) -> List[Dict[str, Any]]:
     names = ["a", "b", "c"][:ncols]
@@ -341,7 +389,10 @@ def gen_case(rng, nsteps: int, p_bad: float = 0.12) -> Dict[str, Any]:
             if v is not None:
                 break
         arg, sid = v
-        steps.append({"handle": rng.choice(["A", "A", "B", "fresh"]), "variant": vname, "arg": arg, "sid": sid,
+        build = "fresh" if arg is None or rng.random() < 0.5 else rng.choice(BUILD_MODES[1:])
+        if build in KEEPS_SID:
+            sid = 1
+        steps.append({"handle": rng.choice(["A", "A", "B", "fresh"]), "variant": vname, "arg": arg, "sid": sid, "build": build,
                       "records": gen_records(rng, arg if arg is not None else fields, p_bad),
                       "commit_fails": rng.random() < 0.06})
     return {"fields": fields, "steps": steps, "seed": rng.getrandbits(30)}
@@ -349,14 +400,14 @@ def gen_case(rng, nsteps: int, p_bad: float = 0.12) -> Dict[str, Any]:
 
 def case_json(case: Dict[str, Any]) -> Dict[str, Any]:
     return {"fields": case["fields"], "seed": case.get("seed", 0),
-            "steps": [{"handle": s["handle"], "variant": s["variant"], "arg": s["arg"], "sid": s["sid"],
+            "steps": [{"handle": s["handle"], "variant": s["variant"], "arg": s["arg"], "sid": s["sid"], "build": s.get("build", "fresh"),
                        "commit_fails": bool(s.get("commit_fails")),
                        "records": [enc_record(r) for r in s["records"]]} for s in case["steps"]]}
 
 
 def case_unjson(j: Dict[str, Any]) -> Dict[str, Any]:
     return {"fields": j["fields"], "seed": j.get("seed", 0),
-            "steps": [{"handle": s["handle"], "variant": s["variant"], "arg": s["arg"], "sid": s["sid"],
+            "steps": [{"handle": s["handle"], "variant": s["variant"], "arg": s["arg"], "sid": s["sid"], "build": s.get("build", "fresh"),
                        "commit_fails": bool(s.get("commit_fails")),
                        "records": [dec_record(r) for r in s["records"]]} for s in j["steps"]]}
 
@@ -379,7 +430,9 @@ def _eval_filter(rows: List[Dict[str, Any]], col: str, op: str, lit: Any) -> Lis
         elif op == ">":
             ok = v > lit
         elif op == "in":
-            ok = any(v == x for x in lit)
+            # membership is pyarrow's is_in, which tells -0.0 from 0.0 (== does not); what `in` should mean is
+            # C12's subject -- here the question is only whether the file holding the row was wrongly skipped
+            ok = any(v == x and (not isinstance(v, float) or not isinstance(x, float) or math.copysign(1, v) == math.copysign(1, x)) for x in lit)
         else:
             ok = v >= lit
         if ok:
@@ -424,13 +477,13 @@ def run_case(case: Dict[str, Any], root: str, filters_per_col: int = 2) -> Dict[
             handle = handles[h]
         before = observe(root)
         arg_fields = step["arg"]
-        ev: Dict[str, Any] = {"step": si, "variant": step["variant"], "handle": h}
+        ev: Dict[str, Any] = {"step": si, "variant": step["variant"], "handle": h, "build": step.get("build", "fresh")}
         if step.get("commit_fails"):
             def failing_commit(*a, **k):
                 raise RuntimeError("injected commit failure (before the commit point)")
             handle.metadata_manager.commit = failing_commit
         try:
-            schema = Schema(schema_id=step["sid"], fields=copy.deepcopy(arg_fields)) if arg_fields is not None else None
+            schema = build_schema(step.get("build", "fresh"), step["sid"], arg_fields, case["fields"], handle) if arg_fields is not None else None
             handle.append_records(copy.deepcopy(step["records"]), schema=schema)
             ev["outcome"] = "accepted"
         except Exception as e:                       # noqa: BLE001 - any exception is "the append raised"
@@ -792,6 +845,57 @@ def oracle_tx(ctx) -> List[Tuple[Dict[str, Any], Dict[str, Any]]]:
     return runs
 
 
+def oracle_objects(ctx) -> None:
+    """Schema argument OBJECTS whose derived attributes disagree with their fields (every non-fresh build mode)
+    x the divergent schema-argument variants x {fresh, reused} handle, after one ordinary append.  The two
+    columns have the same type and disjoint value ranges, so bounds filed under the other column's id, a
+    changed column order or a changed type cannot go unnoticed by the full and the extreme-value filtered scans."""
+    rng = ctx.rng
+    pairs = [("long", [100, 101], [1, 2]), ("string", ["x1", "x2"], ["a1", "a2"]), ("double", [10.5, 11.5], [0.5, 1.5])]
+    variants = ["identical", "renumbered", "ids_shifted", "reordered", "reordered_new_sid", "retyped", "nullability", "extra", "missing", "renamed"]
+    jobs, meta = [], []
+    for mode in BUILD_MODES[1:]:
+        for vname in variants:
+            for hname in ("fresh", "A"):
+                if ctx.tier == "quick" and hname == "A" and vname in ("extra", "missing", "renamed", "identical"):
+                    continue
+                ty, va, vb = rng.choice(pairs)
+                fields = [{"id": 1, "name": "a", "type": ty, "required": False}, {"id": 2, "name": "b", "type": ty, "required": False}]
+                v = make_variant(rng, fields, vname)
+                if v is None:
+                    continue
+                arg, sid = v
+                if mode in KEEPS_SID:
+                    sid = 1
+                first = [{"a": va[0], "b": vb[0]}]
+                if vname in ("identical", "renumbered", "ids_shifted", "reordered", "reordered_new_sid", "nullability"):
+                    recs = [{"a": va[1], "b": vb[1]}]
+                else:
+                    recs = gen_records(rng, arg, 0.0) or [{f["name"]: good_values(declared_type(f["type"]))[0] for f in arg}]
+                case = {"fields": fields, "seed": rng.getrandbits(30), "steps": [
+                    {"handle": "A", "variant": "omitted", "arg": None, "sid": 1, "build": "fresh", "records": first},
+                    {"handle": hname, "variant": vname, "arg": arg, "sid": sid, "build": mode, "records": recs}]}
+                jobs.append((case, 1))
+                meta.append((mode, vname, hname))
+    seen = set()
+    outcomes: Dict[str, Dict[str, int]] = {}
+    for (case, _), (mode, vname, hname), res in zip(jobs, meta, bounded_many(ctx.scratch, jobs)):
+        ctx.count(1, ("objects", mode, vname, hname))
+        if len(res["trace"]) > 1:
+            o = outcomes.setdefault(mode, {"accepted": 0, "rejected": 0})
+            o[res["trace"][1]["outcome"]] += 1
+        for key, what in res["violations"]:
+            k2 = f"object:{key}"
+            if k2 in seen:                           # one replay per kind of failure; the build mode is in the text
+                continue
+            seen.add(k2)
+            small = shrink_case(case, os.path.join(ctx.scratch, "shrink"), key)
+            again = bounded_case(small, os.path.join(ctx.scratch, "shrink"))
+            what2 = next((w for k, w in again["violations"] if k == key), what)
+            ctx.violation(k2, f"schema argument built by '{mode}' ({vname}, handle {hname}): {what2}", {"kind": "history", "case": case_json(small)})
+    ctx.stats["objects"] = {"cases": len(jobs), "by_build_mode": outcomes}
+
+
 def oracle_cells(ctx) -> None:
     """Every column type x every value class, one cell per table (the conversion boundary of the property)."""
     n = 0
@@ -1019,8 +1123,8 @@ def fields_coq(fs: List[Dict[str, Any]]) -> str:
     return "[" + "; ".join(field_coq(f) for f in fs) + "]"
 
 
-def ischema_coq(sid: int, fs: List[Dict[str, Any]]) -> str:
-    return f"{{| sid := ({sid})%Z; sfields := {fields_coq(fs)} |}}"
+def ischema_coq(sid: int, fs: List[Dict[str, Any]], stale: bool = False) -> str:
+    return f"{{| sid := ({sid})%Z; sfields := {fields_coq(fs)}; sstring := {1 if stale else 0}%Z |}}"
 
 
 def record_coq(r: Dict[str, Any]) -> str:
@@ -1112,12 +1216,13 @@ def corr_accept_arrow(ctx) -> None:
             if v2 is not None and len({f["name"] for f in v2[0]}) == len(v2[0]) and len({f["id"] for f in v2[0]}) == len(v2[0]):
                 args.append(("double", v2[0], v2[1]))
         for vname, arg, sid in args:
+            mode = rng.choice(BUILD_MODES)
             try:
-                tx._validate_schema_against_table(Schema(schema_id=sid, fields=copy.deepcopy(arg)))
+                tx._validate_schema_against_table(build_schema(mode, sid, arg, fields, table))
                 ok = True
             except ValueError:
                 ok = False
-            acc_cases.append((vname, fields, arg))
+            acc_cases.append((vname + "/" + mode, fields, arg))
             acc_impl.append(ok)
             acc_exprs.append(f"accept_schema {fields_coq(fields)} {fields_coq(arg)}")
             ctx.count(1, ("accept", ti, vname, repr(arg)))
@@ -1308,7 +1413,8 @@ def corr_machine(ctx, runs: List[Tuple[Dict[str, Any], Dict[str, Any]]]) -> None
                 fresh_id += 1
             else:
                 h = {"A": 0, "B": 1}[st["handle"]]
-            arg = f"(Some {ischema_coq(st['sid'], st['arg'])})" if st["arg"] is not None else "None"
+            stale = st.get("build", "fresh") != "fresh" and st["arg"] != case["fields"]
+            arg = f"(Some {ischema_coq(st['sid'], st['arg'], stale)})" if st["arg"] is not None else "None"
             recs = "[" + "; ".join(record_coq({k: v for k, v in r.items()}) for r in st["records"]) + "]"
             real_files = []
             for f in ev["files"]:
@@ -1378,7 +1484,8 @@ def corr_tx(ctx, runs: List[Tuple[Dict[str, Any], Dict[str, Any]]]) -> None:
             calls, ctags = [], []
             for c, cev in zip(tx["calls"], tev["calls"]):
                 if c["op"] == "records":
-                    arg = f"(Some {ischema_coq(c['sid'], c['arg'])})" if c["arg"] is not None else "None"
+                    stale = c.get("build", "fresh") != "fresh" and c["arg"] != case["fields"]
+                    arg = f"(Some {ischema_coq(c['sid'], c['arg'], stale)})" if c["arg"] is not None else "None"
                     calls.append(f"CRecords {arg} [" + "; ".join(record_coq(r) for r in c["records"]) + "]")
                     ctags.append(classify(cev))
                 else:
@@ -1456,6 +1563,7 @@ def run(ctx) -> None:
     ctx.allow_axioms([])
     oracle_cells(ctx)
     oracle_spelling(ctx)
+    oracle_objects(ctx)
     oracle_prebuilt(ctx)
     runs = oracle_e2e(ctx)
     tx_runs = oracle_tx(ctx)
